@@ -44,6 +44,10 @@ var c13HarnessParams = map[string]map[string]any{
 type padSpec struct {
 	Before int    `json:"before"` // chunk index (in output order) the padding precedes
 	Text   string `json:"text"`
+	// CloneOf k > 0: the padding is a renamed copy of the k-th plain function of the
+	// file (mod their number), expectation lines blanked: unrelated code that shares
+	// its text - comments, literals, identifiers - with an existing declaration.
+	CloneOf int `json:"clone_of,omitempty"`
 }
 
 type c13Extra struct {
@@ -55,6 +59,9 @@ type c13Extra struct {
 	// Variant selects a systematic permutation: 0 reversal, k>0 rotation by k
 	// (while k < number of movable functions), else the random Perm.
 	Variant int `json:"variant"`
+	// CloneAll (source mode): 1 = a renamed copy of EVERY plain function is put in
+	// front of the first declaration, 2 = after the last one.
+	CloneAll int `json:"clone_all,omitempty"`
 }
 
 func (w *Worker) genC13(rc *simapi.RunConfig) {
@@ -87,6 +94,9 @@ func (w *Worker) genC13(rc *simapi.RunConfig) {
 			ex.Pads = append(ex.Pads, padSpec{Before: r.Intn(40), Text: t})
 		}
 		ex.Append = r.Intn(3)
+		if r.Intn(3) == 0 {
+			ex.Pads = append(ex.Pads, padSpec{Before: r.Intn(40), CloneOf: 1 + r.Intn(24)})
+		}
 	}
 	// the permutation is drawn against a generous bound and reduced to the
 	// actual number of movable slots when the run executes; the first variants
@@ -95,6 +105,9 @@ func (w *Worker) genC13(rc *simapi.RunConfig) {
 	variant := rc.Index / (n * nf * 2)
 	ex.Perm = r.Perm(24)
 	ex.Variant = variant
+	if ex.Mode == "source" {
+		ex.CloneAll = variant % 3 // the second and third source variant of every file are systematic
+	}
 	// selection: the package's own checker plus a few others; every fifth run all of them
 	wl := &Workload{Params: map[string]map[string]any{}}
 	if rc.Index%5 == 4 {
@@ -392,6 +405,16 @@ type chunk struct {
 	text    string
 	first   int // first original line of the chunk (1-based)
 	movable bool
+	nameOff int // offset of the function name inside text (movable chunks)
+	nameLen int
+}
+
+var expectLineRE = regexp.MustCompile(`(?m)^[ \t]*/\*! .* \*/[ \t]*$`)
+
+// cloneText is the chunk of a plain function under a new name, without its expectation lines.
+func cloneText(c chunk, newName string) string {
+	t := c.text[:c.nameOff] + newName + c.text[c.nameOff+c.nameLen:]
+	return expectLineRE.ReplaceAllString(t, "")
 }
 
 // splitChunks cuts a file into header, one chunk per top-level declaration
@@ -430,7 +453,15 @@ func splitChunks(fset *token.FileSet, f *ast.File, src string) (header chunk, ch
 			return header, nil, trailer, false // two declarations on one line
 		}
 		e := endOfLine(endLine)
-		chunks = append(chunks, chunk{text: src[cur:e], first: curLine, movable: plainFunc(d)})
+		ch := chunk{text: src[cur:e], first: curLine, movable: plainFunc(d)}
+		if fd, isFn := d.(*ast.FuncDecl); isFn {
+			ch.nameOff = fset.Position(fd.Name.Pos()).Offset - cur
+			ch.nameLen = len(fd.Name.Name)
+			if ch.nameOff < 0 || ch.nameOff+ch.nameLen > len(ch.text) || ch.text[ch.nameOff:ch.nameOff+ch.nameLen] != fd.Name.Name {
+				ch.nameLen = 0 // file on disk and tree disagree: never cloned
+			}
+		}
+		chunks = append(chunks, ch)
 		cur = e
 		curLine = endLine + 1
 	}
@@ -504,23 +535,57 @@ func (w *Worker) runC13Source(rc *simapi.RunConfig) *simapi.RunResult {
 		}
 	}
 	emit(header, true)
-	padded := 0
+	padded, cloned := 0, 0
+	padText := func(k int, p padSpec) string {
+		if p.CloneOf == 0 {
+			return p.Text
+		}
+		if len(slots) == 0 {
+			return ""
+		}
+		src := chunks[slots[(p.CloneOf-1)%len(slots)]]
+		if src.nameLen == 0 {
+			return ""
+		}
+		cloned++
+		return "\n" + cloneText(src, fmt.Sprintf("gcsimClone%d", k)) + "\n"
+	}
+	cloneAll := func() {
+		for k, si := range slots {
+			if chunks[si].nameLen == 0 {
+				continue
+			}
+			emit(chunk{text: "\n" + cloneText(chunks[si], fmt.Sprintf("gcsimCloneAll%d", k)) + "\n"}, false)
+			cloned++
+			padded++
+		}
+	}
+	if ex.CloneAll == 1 {
+		cloneAll()
+	}
 	for pos, ci := range order {
-		for _, p := range ex.Pads {
+		for k, p := range ex.Pads {
 			if p.Before%(len(order)+1) == pos {
-				emit(chunk{text: p.Text}, false)
-				padded++
+				if t := padText(k, p); t != "" {
+					emit(chunk{text: t}, false)
+					padded++
+				}
 			}
 		}
 		emit(chunks[ci], true)
 	}
-	for _, p := range ex.Pads {
+	for k, p := range ex.Pads {
 		if p.Before%(len(order)+1) == len(order) {
-			emit(chunk{text: p.Text}, false)
-			padded++
+			if t := padText(k, p); t != "" {
+				emit(chunk{text: t}, false)
+				padded++
+			}
 		}
 	}
 	emit(trailer, true)
+	if ex.CloneAll == 2 {
+		cloneAll()
+	}
 	for i := 0; i < ex.Append; i++ {
 		emit(chunk{text: fmt.Sprintf("\nfunc gcsimTail%d(a int) int {\n\treturn a\n}\n", i)}, false)
 	}
@@ -555,6 +620,11 @@ func (w *Worker) runC13Source(rc *simapi.RunConfig) *simapi.RunResult {
 		} else {
 			pf, perr = parser.ParseFile(fset, filepath.Join(cp.Dir, fn), nil, parser.ParseComments)
 		}
+		if perr != nil && cloned > 0 {
+			res.Verdict = "skip"
+			res.Notes = append(res.Notes, "transformation with a cloned function does not parse (not applied): "+perr.Error())
+			return res
+		}
 		if perr != nil {
 			res.Verdict = "harness-error"
 			res.Notes = append(res.Notes, "transformed source does not parse: "+perr.Error())
@@ -575,6 +645,12 @@ func (w *Worker) runC13Source(rc *simapi.RunConfig) *simapi.RunResult {
 	var terrs []string
 	tc := types.Config{Importer: imp, Sizes: w.corpus.Sizes, Error: func(e error) { terrs = append(terrs, e.Error()) }}
 	tpkg, _ := tc.Check(cp.Pkg.PkgPath, fset, files, info)
+	if len(terrs) > 0 && cloned > 0 {
+		// a copy of a function is not always legal (compiler directives, redeclared labels...)
+		res.Verdict = "skip"
+		res.Notes = append(res.Notes, "transformation with a cloned function does not type-check (not applied): "+joinShort(terrs, 2))
+		return res
+	}
 	if len(terrs) > 0 {
 		res.Verdict = "harness-error"
 		res.Notes = append(res.Notes, "transformed package does not type-check: "+joinShort(terrs, 3))
@@ -663,16 +739,23 @@ func (w *Worker) runC13Source(rc *simapi.RunConfig) *simapi.RunResult {
 	res.NonTrivial = (moved >= 1 || padded >= 1 || ex.Append >= 1) && (ndiag >= 1 || res.Stats["expectation_oracle_used"] >= 1)
 	res.Stats["functions_moved"] = int64(moved)
 	res.Stats["paddings_inserted"] = int64(padded)
+	res.Stats["functions_cloned"] = int64(cloned)
 	res.Stats["functions_appended"] = int64(ex.Append)
 	res.Stats["diagnostics"] = int64(ndiag)
 	res.Stats["checkers"] = int64(len(names))
-	res.DecisionID = hashStrings(pkg, fmt.Sprint(ex.File, perm, ex.Pads, ex.Append), strings.Join(names, ","))
+	res.DecisionID = hashStrings(pkg, fmt.Sprint(ex.File, perm, ex.Pads, ex.Append, ex.CloneAll), strings.Join(names, ","))
 	res.Digest = hashStrings(res.DecisionID, fmt.Sprint(ndiag, len(res.Violations)))
 	return res
 }
 
 func describeTransform(perm []int, ex c13Extra) string {
-	return fmt.Sprintf("reordering plain functions %v, %d paddings, %d appended functions", perm, len(ex.Pads), ex.Append)
+	cl := ""
+	if ex.CloneAll == 1 {
+		cl = ", a renamed copy of every plain function inserted before the first declaration"
+	} else if ex.CloneAll == 2 {
+		cl = ", a renamed copy of every plain function appended"
+	}
+	return fmt.Sprintf("reordering plain functions %v, %d paddings, %d appended functions%s", perm, len(ex.Pads), ex.Append, cl)
 }
 
 // tmpDir is a per-process scratch directory next to the job's output file.
